@@ -158,7 +158,7 @@ class TransitionBatch:
                 ses.n += 1
                 pfx = "g%d_" % ses.n
                 allsteps = prefix + todo
-                leaves = make_leaves(leaves_of(allsteps), seed())
+                leaves = make_leaves(leaves_of(allsteps + ([pick] if pick is not None else [])), seed())
                 rp = Replayer(ses.ex, leaves, exact_tags=self.exact_tags, prefix=pfx, **self.kw)
                 idx, bad = rp.run(prefix)
                 if idx is not None:
